@@ -54,7 +54,7 @@ def check(ctx, report):
     from .c05 import scsv_tabulation
     hello = ctx.model.try_cls('TlsHandshakeClientHello')
     if hello is not None and hello.methods.get('_parse') is not None and hello.methods.get('compose') is not None:
-        if not scsv_tabulation(ctx, report, hello, hello.methods['_parse'], hello.methods['compose'], RULE='C06.R9'):
+        if not scsv_tabulation(ctx, report, hello, hello.resolve('_parse'), hello.resolve('compose'), RULE='C06.R9'):
             report.undecided.append('C06.R9: the client hello left the subset the tabulation understands (C05.R3 reads its shape)')
     report.floor('C06.R1', 150, 'layout comparisons')
     report.floor('C06.R2', 100, 'registry members')
@@ -125,7 +125,7 @@ def ssl2_header(ctx, report, RULE='C06.R4'):
     from ..symeval import NotEvaluable, evaluate
     from ..values import Sym, show
     comp = ctx.canon.canon(c, 'compose')
-    f = c.methods['compose']
+    f = c.resolve('compose')
     head, width = [], 0
     for e in comp.elements:
         if e.kind != 'u' or width >= 2:
@@ -213,7 +213,7 @@ def ssl2_parse_header(ctx, report, c, RULE='C06.R4'):
     from ..symeval import NotEvaluable, evaluate
     from ..trace import Alt, Op, Raise, walk
     from ..values import FieldV, Sym, show
-    p = c.methods['_parse']
+    p = c.resolve('_parse')
     report.touch(p)
     res = ctx.canon.layout(c, 'parse').result
     nodes = list(walk(res.block))
